@@ -538,6 +538,23 @@ func Features(sim *Sim) []string {
 		if reConv.MatchString(s) {
 			set["subject_conventional"] = true
 		}
+		if strings.ContainsAny(c.Commit.Author, "-'.[]()@") {
+			set["author_punctuation"] = true
+		}
+		if len(c.Entries) >= 10 {
+			set["commit_with_changes>=10"] = true
+		}
+		for i, e := range c.Entries {
+			for _, f := range c.Entries[i+1:] {
+				a, b := e.Printed(), f.Printed()
+				if strings.HasPrefix(a, b) || strings.HasPrefix(b, a) {
+					set["paths_prefix_of_each_other_in_commit"] = true
+				}
+				if strings.HasSuffix(a, b) || strings.HasSuffix(b, a) {
+					set["paths_suffix_of_each_other_in_commit"] = true
+				}
+			}
+		}
 		for _, r := range c.Commit.Author {
 			if r > 127 {
 				set["author_non_ascii"] = true
@@ -563,6 +580,22 @@ func Features(sim *Sim) []string {
 			}
 			if e.Binary {
 				set["binary"] = true
+			}
+			if e.Exec {
+				set["executable_file_"+e.Mode()] = true
+			}
+			if e.Added >= 100 || e.Deleted >= 100 {
+				set["numstat_3_digits"] = true
+			}
+			if e.Added >= 1000 || e.Deleted >= 1000 {
+				set["numstat_4_digits"] = true
+			}
+			for _, p := range []string{e.Old, e.New} {
+				if strings.HasPrefix(p, " ") {
+					set["path_leading_blank"] = true
+				} else if strings.Contains(p, "/ ") {
+					set["path_component_leading_blank"] = true
+				}
 			}
 			switch e.Kind {
 			case 'D':
